@@ -192,6 +192,9 @@ ARG_SHAPES = {
     "none": lambda: None, "bool": lambda: True, "empty-tuple": lambda: (), "nested-tuple": lambda: (1, ("a", (b"b", None))),
     "tuple-with-list": lambda: (1, [2, 3]), "list": lambda: [1, 2], "dict": lambda: {"a": 1}, "function": lambda: _fn,
     "instance": lambda: Inst(), "frozenset": lambda: frozenset([1, (2, 3)]), "slice": lambda: slice(1, None, 2),
+    # tuple SUBCLASSES are not values: they travel by reference and keep their type, fields and methods
+    "namedtuple": lambda: V.Point(1, 2), "tuple-subclass": lambda: V.TupleSub((1, 2)),
+    "tuple-with-namedtuple": lambda: (0, V.Point(3, 4)),
 }
 
 
@@ -217,6 +220,10 @@ def describe(x, touch):
         if touch:
             x.bump()
         return ("inst", x.attr)
+    if cname == "Point":
+        return ("point", x.x, x.y, len(x), describe(x._replace(x=5)[0], False))
+    if cname == "TupleSub":
+        return ("tuplesub", len(x), describe(x[0], False))
     return ("other", cname)
 
 
